@@ -87,6 +87,55 @@ def fanoutReplay : Handler := fun args =>
     ("enabled", Json.arr (es.map fun e => Json.arr (e.map Json.str).toArray).toArray),
     ("final", finalJson cfg s)]
 
-def handlers : List (String × Handler) := [("fanout.replay", fanoutReplay)]
+/-- all maximal label sequences of the model from `s` (depth-first), at most `limit` of them; `fuel` bounds the depth
+    (the termination measure `mu` is a sufficient fuel) -/
+def enumRuns (cfg : Cfg) : Nat → St → List String → (Nat × List (List String)) → (Nat × List (List String))
+  | 0, _, pre, (lim, acc) => (lim - 1, pre.reverse :: acc)
+  | fuel + 1, s, pre, (lim, acc) =>
+    if lim = 0 then (lim, acc) else
+    match enabled cfg s with
+    | [] => (lim - 1, pre.reverse :: acc)
+    | ls => ls.foldl (fun st l =>
+        match step? cfg s l with
+        | some s' => enumRuns cfg fuel s' (labelStr l :: pre) st
+        | none => st) (lim, acc)
+
+def applyPrefix (cfg : Cfg) (s : St) : List String → St
+  | [] => s
+  | x :: xs => match (parseLabel x).bind (step? cfg s) with
+    | some s' => applyPrefix cfg s' xs
+    | none => s
+
+/-- enumerate the maximal runs that extend `prefix` (the part of a run the scheduler cannot control) -/
+def fanoutEnum : Handler := fun args =>
+  let cfg := cfgOf (getIntList args "res")
+  let pre := getStrList args "prefix"
+  let s0 := applyPrefix cfg (init cfg) pre
+  let (_, runs) := enumRuns cfg (mu cfg s0 + 1) s0 [] (getNat args "limit", [])
+  Json.mkObj [("runs", Json.arr (runs.reverse.map fun r => Json.arr ((pre ++ r).map Json.str).toArray).toArray)]
+
+/-- one pseudo-random maximal run (linear congruential choice among the enabled labels) -/
+def sampleRun (cfg : Cfg) : Nat → St → Nat → List String → List String
+  | 0, _, _, acc => acc.reverse
+  | fuel + 1, s, seed, acc =>
+    match enabled cfg s with
+    | [] => acc.reverse
+    | ls =>
+      let seed' := (seed * 6364136223846793005 + 1442695040888963407) % 18446744073709551616
+      let l := ls.getD ((seed' / 4294967296) % ls.length) .mRead
+      match step? cfg s l with
+      | some s' => sampleRun cfg fuel s' seed' (labelStr l :: acc)
+      | none => acc.reverse
+
+def fanoutSample : Handler := fun args =>
+  let cfg := cfgOf (getIntList args "res")
+  let pre := getStrList args "prefix"
+  let s0 := applyPrefix cfg (init cfg) pre
+  let seed := getNat args "seed"
+  let k := getNat args "count"
+  let runs := (List.range k).map fun i => pre ++ sampleRun cfg (mu cfg s0 + 1) s0 (seed * 1000003 + i * 7919 + 1) []
+  Json.mkObj [("runs", Json.arr (runs.map fun r => Json.arr (r.map Json.str).toArray).toArray)]
+
+def handlers : List (String × Handler) := [("fanout.replay", fanoutReplay), ("fanout.enum", fanoutEnum), ("fanout.sample", fanoutSample)]
 
 end CV.Ops.C19
